@@ -244,6 +244,7 @@ var properties = map[string]*propSpec{
 		Title: "Parse depends only on the path and the Config given to that call",
 		Checks: []checkSpec{
 			{Test: "TestC19_History", Quick: 3000, Thorough: 40000, Rapid: true},
+			{Test: "TestC19_LongRun", Quick: 12000, Thorough: 150000, Rapid: true},
 		},
 		Assumptions: assume("the reference outcome of each (path, config) descriptor is its outcome as the first library call of a fresh process (one exec of the test binary per descriptor)"),
 		Floors: []floor{
@@ -262,6 +263,7 @@ var properties = map[string]*propSpec{
 		Title: "Every object member is addressable; dot and bracket notations are equivalent",
 		Checks: []checkSpec{
 			{Test: "TestC16_Keys", Quick: 6000, Thorough: 100000, Rapid: true},
+			{Test: "TestC16_Collide", Quick: 1, Thorough: 1, Shards: 2},
 		},
 		Assumptions: assume("keys are valid UTF-8 Go strings (what encoding/json produces); the oracle is a plain Go map lookup"),
 		Floors: []floor{
